@@ -62,7 +62,7 @@ class C11(Check):
     assumptions = ["Calibrator/schedulers/samplers/losses: real code; RL threads and queues are baton-scheduled stand-ins, so 'thread alive' and "
                    "'message queued' are read from the simulator", "under n_jobs>1 the injected exception surfaces when the failing task completes, "
                    "after an arbitrary subset of its siblings ran (as with joblib)"]
-    quick = {"runs": 90, "wall": 150, "item_timeout": 400}
+    quick = {"runs": 90, "wall": 300, "item_timeout": 400}
     thorough = {"runs": 4000, "wall": 900, "item_timeout": 300}
 
     def gen(self, rng, tier, i):
